@@ -1,6 +1,6 @@
 (* C19 - Protocol messages mean the same to both ends and framing always terminates.
    Only statements, each closed by [exact]; proofs are in the files imported below. *)
-From BE Require Import Model.Wire Proofs.Wire Gen.Regexes Proofs.Pins.
+From BE Require Import Model.Wire Proofs.Wire Gen.Regexes Proofs.Pins Gen.Skeleton Proofs.SkeletonPin.
 Local Open Scope string_scope.
 Local Open Scope nat_scope.
 
@@ -111,6 +111,12 @@ Theorem C19_eof_anywhere :
                snd (recv_all fuel (sconcat (map frame ms) ++ substring 0 cut (frame m))%string) = (if cut =? 0 then true else false).
 Proof. exact eof_anywhere. Qed.
 Print Assumptions C19_eof_anywhere.
+
+(* the structure of send_message / receive_message (socket calls, loop, returns), re-extracted from the source on this run, is the one Model/Wire.v mirrors *)
+Theorem C19_framing_skeleton_is_the_modelled_one :
+  framing_skeleton = pinned_framing_skeleton.
+Proof. exact framing_skeleton_pinned. Qed.
+Print Assumptions C19_framing_skeleton_is_the_modelled_one.
 
 (* the patterns of the parsers, regenerated from the source on every run, are the ones the matchers of Model/Wire.v mirror *)
 Theorem C19_regex_pins :
